@@ -120,6 +120,9 @@ func runC08(c *Ctx) {
 	c.Rule("C08.bounded-backlog", "coalesce.insert never appends to the queue for a key that is already pending (<= 1 entry per distinct pending key)")
 	contentWriters(c, "C08.handles-keep-value")
 	c.Borrow("C11", map[string]string{"C11.token": "C08.wakeup"}, "a producer that skips the wake-up token leaves a healthy subscriber's sender parked with updates pending: it stops receiving although nothing is blocked")
+	c.Borrow("C03", map[string]string{"C03.write-then-return": "C08.leaf-handle"}, "the backlog is bounded because the queue coalesces on the identity of the leaf handle: the handle announced for a change must be the tree's own node, not a fresh detached leaf per update")
+	c.Rule("C08.walk-locks", "package cache: Cache.targets only under Cache.mu; no re-entrant acquisition of Cache.mu - 'accepting a target update never waits on any subscriber': a subscriber's all-targets snapshot walk that re-acquires Cache.mu for reading deadlocks behind a waiting writer, and every later GnmiUpdate then blocks behind it")
+	walkLocks(c, "C08.walk-locks")
 	c.Rule("C08.isolation", "dropping one subscriber's registration leaves the others in place: removeQuery prunes a node only when it holds neither clients nor children")
 	removeQueryPrune(c, "C08.isolation")
 	c.Rule("C08.timer", "every gRPC Send in package subscribe is preceded on its path by Reset of the send timer and followed by its Stop; on every path of the sender loop (sendSubscribeResponse inlined) the timer is stopped whenever Queue.Next is called; the timer is the one the watcher goroutine of sendStreamingResults selects on, whose expiry arm sends a non-nil error on errC")
